@@ -239,7 +239,7 @@ func genRules(r *prng.Rand, n int, compCycle int) []refconv.QRule {
 						}
 					}
 					size += 1 + sz
-					v := r.Bytes(sz)
+					v := qosParamValue(r, sz)
 					switch t {
 					case 0x80: // flow label: 20 bits
 						v[0] &= 0x0f
